@@ -82,7 +82,7 @@ def zsigned(z):
 def reward_scale(cfg):
     rew = (cfg.get("env") or {}).get("rewards") or {}
     vals = [v for v in rew.values() if isinstance(v, (int, float)) and not isinstance(v, bool)]
-    return 1 if all(float(v).is_integer() for v in vals) else 4
+    return 1 if all(float(v).is_integer() for v in vals) else 16
 
 
 def ser_list(f, l):
